@@ -54,6 +54,8 @@ func c02RpcRun(r *zsim.Run) {
 	r.RandMode = 2 // the method breaker never rejects
 	o, f := r.Ops, r.Fault
 	timeout := zsim.Pick(o, time.Second, 50*time.Millisecond)
+	// a server configured with Timeout 0 installs no timeout interceptor (rpc/server.go)
+	noTimeout := o.Intn(4) == 0
 	info := &grpc.UnaryServerInfo{FullMethod: fmt.Sprintf("/c02.%d/Call", r.Seed)}
 	clients := 1 + o.Intn(4)
 	done := 0
@@ -66,12 +68,16 @@ func c02RpcRun(r *zsim.Run) {
 			for i := 0; i < n && !r.Failed(); i++ {
 				zsim.Sleep(time.Duration(o.Intn(30)) * time.Millisecond)
 				d := zsim.Pick(o, time.Duration(0), time.Millisecond, timeout/2, timeout-3*time.Millisecond, timeout+7*time.Millisecond, 3*timeout)
+				if noTimeout && d >= timeout {
+					d = timeout / 2
+				}
+				pval := o.Intn(4)                // what a panicking handler panics with
 				outcome := zsim.Pick(o, 0, 0, 1) // 0 value 1 app error
 				if f.Intn(5) == 4 {
 					outcome = 2 // panic
 				}
 				var cancelAt time.Duration
-				if f.Intn(6) == 5 {
+				if f.Intn(6) == 5 && !noTimeout {
 					cancelAt = zsim.Pick(f, timeout/3+time.Millisecond, 2*time.Millisecond, timeout+20*time.Millisecond)
 				}
 				var finishedAt time.Duration = -1
@@ -84,11 +90,22 @@ func c02RpcRun(r *zsim.Run) {
 					case 1:
 						return nil, errApp
 					case 2:
+						switch pval {
+						case 1:
+							panic(status.Error(codes.NotFound, "panic-with-a-status-error"))
+						case 2:
+							panic(status.Error(codes.Unavailable, "panic-with-a-status-error"))
+						case 3:
+							panic(errors.New("panic-with-an-error"))
+						}
 						panic("rpc-handler-panic")
 					}
 					return fmt.Sprintf("resp-%d-%d", c, i), nil
 				}
 				h := c02Chain(handler, info, UnaryCrashInterceptor, UnaryBreakerInterceptor, UnaryTimeoutInterceptor(timeout))
+				if noTimeout {
+					h = c02Chain(handler, info, UnaryCrashInterceptor, UnaryBreakerInterceptor)
+				}
 				ctx, cancel := context.WithCancel(context.Background())
 				var cancelled time.Duration = -1
 				if cancelAt > 0 {
